@@ -8,15 +8,15 @@ from pbt.util import pretty, call
 
 ID = "C15"
 TITLE = "Gridded stochastic output agrees with the underlying path"
-RULE = ("Models, initial states, parameters and seeds as in C04; output grids of 3-10 points starting at t0 (list, tuple or "
-        "array; uniform or not; the last point possibly far beyond extinction). In a third of the cases 1-2 magnitudes are carried by whole-number parameters and a second gridded call follows on the same object after the parameters were re-assigned (checked against the state-change matrix of the new values). Oracle, exact mode: differential against the same "
+RULE = ("Models, initial states, parameters and seeds as in C04; output grids of 3-10 points starting at t0 or (1 case in 4, the t[1::] convention of the library's own tests) "
+        "after t0 (list, tuple or array; uniform or not; the last point possibly far beyond extinction). In a third of the cases 1-2 magnitudes are carried by whole-number parameters and a second gridded call follows on the same object after the parameters were re-assigned (checked against the state-change matrix of the new values). Oracle, exact mode: differential against the same "
         "random stream - re-seed and run solve_stochast(grid[-1], n, exact=True, full_output=True) to obtain the raw path (same loop, "
         "same draws), then row k must equal the raw state at the last event time <= t_k, the counts of interval k must equal the "
         "per-transition sums of raw counts with event time in (t_k, t_{k+1}], hence X[k+1]-X[k] == V*counts[k]; shape (len(grid), nS), "
-        "first row x0. Tau mode: shape, first row, each row between the neighbouring raw states (interpolation), counts rows sum to at most the raw totals. "
+        "first row x0 when the grid starts at t0 (otherwise row 0 is decided by the row lookup like every other row; events before the first grid time belong to no interval). Tau mode: shape, first row, each row between the neighbouring raw states (interpolation), counts rows sum to at most the raw totals. "
         "Non-trivial = exact mode with >=2 different events firing in >=2 different intervals; distinct by case hash.")
 ASSUMPTIONS = [
-    "grids start at the initial time (documented usage: t = linspace(t0, ...))",
+    "grids start at or after the initial time (documented usage: t = linspace(t0, ...), or t[1::] of it)",
     "continuous event times never coincide with a grid point other than t0 (probability zero)",
 ]
 BUDGET = {"quick": (4, 80), "thorough": (16, 1000)}
@@ -46,6 +46,11 @@ def strategy(tier):
                 rel.append(h * acc / tot)
             if kind == "beyond":
                 rel[-1] = rel[-1] + 5 * h
+        # the library's own t[1::] convention: t0 lives in initial_values and the grid holds the remaining times, so the
+        # first requested time lies after t0 and events may happen before it
+        if draw(st.integers(0, 3)) == 0:
+            off = draw(S.fl(0.05, 0.6, 3)) * h
+            rel = [v + off for v in rel]
         c = {"model": m, "setup": su, "grid_rel": [S.sig(v, 6) for v in rel],
              "grid_type": draw(st.sampled_from(["list", "tuple", "array"])),
              "exact": draw(st.sampled_from([True, True, True, False])),
@@ -87,7 +92,8 @@ def _check_call(case, rec, model, order, su, grid_type, tag):
     exact = case["exact"]
     V = stoch.V_int(m, su["theta"], order)
     key = "C15/" + tag + ("exact" if exact else "tau")
-    rec.label("mode:" + ("exact" if exact else "tau"), "grid:" + grid_type)
+    rec.label("mode:" + ("exact" if exact else "tau"), "grid:" + grid_type,
+              "grid-start:" + ("t0" if case["grid_rel"][0] == 0 else "after-t0"))
     if not tag:
         stoch.limit_steps(model, 1200000 if exact else 120000)
     try:
@@ -121,7 +127,7 @@ def _check_call(case, rec, model, order, su, grid_type, tag):
             rec.label("raw:no-event")
         if X.shape != (len(grid), n_s):
             raise PropertyViolation(key + "/shape", "state output has shape %s, expected (%d,%d)" % (X.shape, len(grid), n_s), case)
-        if not np.array_equal(X[0], np.asarray(su["x0"], float)):
+        if case["grid_rel"][0] == 0 and not np.array_equal(X[0], np.asarray(su["x0"], float)):
             raise PropertyViolation(key + "/first-row", "first row %s is not the initial state %s" % (X[0], su["x0"]), case)
         if Cn.shape != (len(grid) - 1, n_e):
             raise PropertyViolation(key + "/counts-shape", "counts output has shape %s, expected (%d,%d)" % (Cn.shape, len(grid) - 1, n_e), case)
